@@ -33,6 +33,10 @@ def run(ctx):
     check_arm_purity(ctx, "E2-A", P, with_mappers(P, fns))
     check_dispatching(ctx, "E2-A", P, fns)
     from . import spec as SP
+    from . import constructions as K_
+
+    # "... for no other challenge": a hash-derived challenge depends on every byte of what was hashed
+    K_.check_hash_derivations(ctx, P, fns=("ProofCommitmentChallenge<C>::from_hash",))
 
     # finalize: only diagonal pairs reach generate_proof (decided per (commitment variant, signature variant) pair)
     f = P.fns.get("ProofCommitment<C>::finalize")
